@@ -1,0 +1,40 @@
+//go:build verif
+
+// Contracts for package cmap, checked by /verif/engine (gvc).  This file
+// contains comments only; it is compiled only with the "verif" build tag.
+package cmap
+
+// Format 12 (segmented coverage): group i is (startCharCode, endCharCode, startGlyphID)
+// at byte 16+12*i (OpenType cmap specification).
+//@ spec g12start(d []byte, i int) int = be32(d, 16 + 12*i)
+//@ spec g12end(d []byte, i int) int = be32(d, 20 + 12*i)
+//@ spec g12gid(d []byte, i int) int = be32(d, 24 + 12*i)
+//@ spec g12n(d []byte) int = be32(d, 12)
+//@ pred g12ok(d []byte, i int) = (i > 0 ==> g12start(d, i) > g12end(d, i-1)) && g12end(d, i) >= g12start(d, i) && g12end(d, i) != 4294967295 && g12gid(d, i) <= 1114111 && g12gid(d, i) + (g12end(d, i) - g12start(d, i)) <= 1114111
+//@ spec g12total(d []byte, k int) int = ite(k <= 0, 0, g12total(d, k-1) + g12end(d, k-1) - g12start(d, k-1) + 1)
+//@ pred g12wf(d []byte) = len(d) >= 16 && len(d) == 16 + 12*g12n(d) && g12n(d) <= 1000000 && (forall i int :: 0 <= i && i < g12n(d) ==> g12ok(d, i)) && (forall k int :: 0 <= k && k <= g12n(d) ==> g12total(d, k) <= 65536)
+
+//@ func decodeFormat12(data []byte, code2rune func(c int) rune) (sub Subtable, err error)   props: C09 C02
+//@   ensures code2rune == nil && err == nil ==> g12wf(data)
+//@   ensures code2rune == nil && g12wf(data) ==> err == nil
+//@   ensures err == nil ==> is(sub, Format12) && forall i int :: 0 <= i && i < g12n(data) ==> forall c int :: g12start(data, i) <= c && c <= g12end(data, i) ==> has(sub.(Format12), c) && sub.(Format12)[c] == uint16(g12gid(data, i) + c - g12start(data, i))
+//@   modifies nothing
+//@   loop 0
+//@     invariant 0 <= i && i <= nSegments && nSegments == g12n(data) && len(data) == 16 + 12*nSegments && nSegments <= 1000000 && code2rune == nil
+//@     invariant size == g12total(data, i) && size <= 65536 && (i > 0 ==> prevEnd == g12end(data, i-1)) && cmap != nil && fresh(cmap)
+//@     invariant forall k int :: 0 <= k && k < i ==> g12ok(data, k) && g12end(data, k) <= prevEnd
+//@     invariant (i == 0 && size == 0) || (i > 0 && size <= prevEnd + 1)
+//@     invariant forall k int :: 0 <= k && k <= i ==> g12total(data, k) <= 65536
+//@     invariant forall k int :: 0 <= k && k < i ==> forall c int :: g12start(data, k) <= c && c <= g12end(data, k) ==> has(cmap, c) && cmap[c] == uint16(g12gid(data, k) + c - g12start(data, k))
+//@     decreases nSegments - i
+//@   loop 1
+//@     invariant 0 <= i && i < nSegments && nSegments == g12n(data) && len(data) == 16 + 12*nSegments && nSegments <= 1000000 && code2rune == nil
+//@     invariant size == g12total(data, i+1) && size <= 65536 && prevEnd == g12end(data, i) && cmap != nil && fresh(cmap)
+//@     invariant startCharCode == g12start(data, i) && endCharCode == g12end(data, i) && startGlyphID == g12gid(data, i) && startCharCode <= c && c <= endCharCode + 1
+//@     invariant forall k int :: 0 <= k && k <= i ==> g12ok(data, k) && g12end(data, k) <= prevEnd
+//@     invariant forall k int :: 0 <= k && k < i ==> g12end(data, k) < startCharCode
+//@     invariant size <= prevEnd + 1
+//@     invariant forall k int :: 0 <= k && k <= i + 1 ==> g12total(data, k) <= 65536
+//@     invariant forall k int :: 0 <= k && k < i ==> forall c int :: g12start(data, k) <= c && c <= g12end(data, k) ==> has(cmap, c) && cmap[c] == uint16(g12gid(data, k) + c - g12start(data, k))
+//@     invariant forall c2 int :: startCharCode <= c2 && c2 < c ==> has(cmap, c2) && cmap[c2] == uint16(startGlyphID + c2 - startCharCode)
+//@     decreases endCharCode + 1 - c
